@@ -52,6 +52,7 @@ top:
 				}
 			}
 		}
+		result = tv
 	case jp.Expr:
 		if 0 < len(tv) {
 			if _, ok := tv[0].(jp.At); ok {
